@@ -397,73 +397,95 @@ impl Tunnel {
             }
         }
 
-        let mut pipe: Box<dyn datagram_pipe::DuplexPipe> = match request.promote_to_next_state() {
-            Ok(downstream::DatagramPipeHalves::Udp(dstr_source, dstr_sink)) => {
+        // Create the forwarder side first: the request must not be answered with success
+        // if the multiplexer cannot be made
+        enum ForwarderHalves {
+            Udp(forwarder::UdpMultiplexer),
+            Icmp(forwarder::IcmpMultiplexer),
+        }
+
+        let forwarder_halves = match request.protocol() {
+            downstream::DatagramProtocol::Udp => {
                 let meta = forwarder::UdpMultiplexerMeta {
                     client_address,
                     auth: forwarder_auth,
                     tls_domain,
                     user_agent,
                 };
-                let (fwd_shared, fwd_source, fwd_sink) = match forwarder
+                match forwarder
                     .lock()
                     .unwrap()
                     .make_udp_datagram_multiplexer(request_id.clone(), meta)
                 {
-                    Ok(x) => x,
+                    Ok(x) => ForwarderHalves::Udp(x),
                     Err(e) => {
                         return Err((
-                            None,
+                            Some(request),
                             "Failed to create datagram multiplexer",
                             ConnectionError::Io(e),
                         ))
                     }
-                };
-
-                Box::new(udp_pipe::DuplexPipe::new(
-                    (dstr_source, dstr_sink),
-                    (fwd_shared, fwd_source, fwd_sink),
-                    update_metrics,
-                    context.settings.udp_connections_timeout,
-                ))
+                }
             }
-            Ok(downstream::DatagramPipeHalves::Icmp(dstr_source, dstr_sink)) => {
-                let (fwd_source, fwd_sink) = match forwarder
+            downstream::DatagramProtocol::Icmp => {
+                match forwarder
                     .lock()
                     .unwrap()
                     .make_icmp_datagram_multiplexer(request_id.clone())
                 {
-                    Ok(Some(x)) => x,
+                    Ok(Some(x)) => ForwarderHalves::Icmp(x),
                     Ok(None) => {
                         return Err((
-                            None,
+                            Some(request),
                             "ICMP forwarding isn't set up",
                             ConnectionError::Other("Not allowed".to_string()),
                         ))
                     }
                     Err(e) => {
                         return Err((
-                            None,
+                            Some(request),
                             "Failed to create datagram multiplexer",
                             ConnectionError::Io(e),
                         ))
                     }
-                };
+                }
+            }
+        };
 
-                Box::new(datagram_pipe::GenericDuplexPipe::new(
+        let mut pipe: Box<dyn datagram_pipe::DuplexPipe> =
+            match (request.promote_to_next_state(), forwarder_halves) {
+                (
+                    Ok(downstream::DatagramPipeHalves::Udp(dstr_source, dstr_sink)),
+                    ForwarderHalves::Udp((fwd_shared, fwd_source, fwd_sink)),
+                ) => Box::new(udp_pipe::DuplexPipe::new(
+                    (dstr_source, dstr_sink),
+                    (fwd_shared, fwd_source, fwd_sink),
+                    update_metrics,
+                    context.settings.udp_connections_timeout,
+                )),
+                (
+                    Ok(downstream::DatagramPipeHalves::Icmp(dstr_source, dstr_sink)),
+                    ForwarderHalves::Icmp((fwd_source, fwd_sink)),
+                ) => Box::new(datagram_pipe::GenericDuplexPipe::new(
                     (pipe::SimplexDirection::Outgoing, dstr_source, fwd_sink),
                     (pipe::SimplexDirection::Incoming, fwd_source, dstr_sink),
                     update_metrics,
-                ))
-            }
-            Err(e) => {
-                return Err((
-                    None,
-                    "Failed to respond for datagram multiplexer request",
-                    ConnectionError::Io(e),
-                ))
-            }
-        };
+                )),
+                (Ok(_), _) => {
+                    return Err((
+                        None,
+                        "Unexpected datagram multiplexer kind",
+                        ConnectionError::Other("Unexpected multiplexer kind".to_string()),
+                    ))
+                }
+                (Err(e), _) => {
+                    return Err((
+                        None,
+                        "Failed to respond for datagram multiplexer request",
+                        ConnectionError::Io(e),
+                    ))
+                }
+            };
 
         match pipe.exchange().await {
             Ok(_) => {
